@@ -64,6 +64,9 @@ type Verifier struct {
 	scratch         *Enc
 	globNonNil      map[*ssa.Global]bool
 	immutableKeys   map[string]bool
+	sliceNormKeys   map[string]bool
+	opaqueDefs      map[string]*opaqueDef
+	lemmasUsed      map[string]bool
 	autoFrameKept   map[string]bool
 }
 
@@ -85,6 +88,8 @@ func loadVerifier(repoDir string) (*Verifier, error) {
 	v.autoFrameOff = map[string]bool{}
 	v.autoFrameKept = map[string]bool{}
 	v.globNonNil = map[*ssa.Global]bool{}
+	v.opaqueDefs = map[string]*opaqueDef{}
+	v.lemmasUsed = map[string]bool{}
 	cfg := &packages.Config{Mode: packages.LoadAllSyntax, Dir: repoDir, BuildFlags: []string{"-tags=verif"}}
 	cfg.Env = append(os.Environ(), "PATH=/opt/veriftools/go1.26.8/bin:"+os.Getenv("PATH"), "GOTOOLCHAIN=local", "GOFLAGS=-mod=mod", "GOPROXY=off", "GOSUMDB=off")
 	pkgs, err := packages.Load(cfg, "./wamp/...", "./router/...", "./transport/...", "./client/...", "./stdlog/...")
@@ -161,6 +166,26 @@ func loadVerifier(repoDir string) (*Verifier, error) {
 	}
 	for k := range v.immutableKeys {
 		immutableHeapKeys[k] = true
+	}
+	v.sliceNormKeys = map[string]bool{}
+	for _, im := range v.db.SliceNorm {
+		pkg := v.pkgByPath[im.Pkg]
+		if pkg == nil || pkg.Scope().Lookup(im.Type) == nil {
+			v.db.Errors = append(v.db.Errors, fmt.Sprintf("%s:%d: slicenorm: unknown type %s", im.File, im.Line, im.Type))
+			continue
+		}
+		o := pkg.Scope().Lookup(im.Type)
+		st, ok := o.Type().Underlying().(*types.Struct)
+		if !ok {
+			continue
+		}
+		for i := 0; i < st.NumFields(); i++ {
+			for _, f := range im.Fields {
+				if f == st.Field(i).Name() {
+					v.sliceNormKeys[fmt.Sprintf("F:%s:%d:%s", structKey(o.Type()), i, st.Field(i).Name())] = true
+				}
+			}
+		}
 	}
 	v.fieldInvs = map[string]*FieldInv{}
 	for _, fi := range v.db.FieldInvs {
@@ -933,8 +958,45 @@ func (v *Verifier) verifyFuncOnce(fn *ssa.Function, con *Contract) (unit *Unit) 
 				}
 			}
 		}
-		for _, c := range con.Ensures {
-			e.obligeClause(post, out, "ensures", c, fn.Pos())
+		if con.PerReturn && len(fr.rets) > 1 {
+			// check the postconditions on each return path separately
+			// (smaller, merge-free queries), then assume them on the merged state
+			for _, arm := range fr.rets {
+				ast := arm.st.clone()
+				avars := map[string]Value{}
+				for k, val := range pvars {
+					avars[k] = val
+				}
+				for _, fv := range fn.FreeVars {
+					if _, isPtr := fv.Type().Underlying().(*types.Pointer); isPtr {
+						avars[fv.Name()] = e.loadPtr(ast, fr.vals[fv], 0)
+					}
+				}
+				for i := 0; i < fn.Signature.Results().Len() && i < len(arm.vals); i++ {
+					if n := fn.Signature.Results().At(i).Name(); n != "" && n != "_" {
+						avars[n] = arm.vals[i]
+					}
+				}
+				aenv := &SpecEnv{e: e, pkg: fn.Pkg.Pkg, vars: avars, cur: ast, old: entry, results: arm.vals, where: "ensures of " + funcDisplayName(fn) + " at " + e.pos(arm.pos)}
+				e.exitLemmas(aenv, ast, con)
+				for _, c := range con.Ensures {
+					if len(con.UseLemmas) > 0 && strings.HasPrefix(c.Label, "delta") {
+						continue
+					}
+					e.obligeClause(aenv, ast, "ensures", c, arm.pos)
+				}
+			}
+			for _, c := range con.Ensures {
+				out.assume(e.evalClauseAssume(post, c))
+			}
+		} else {
+			e.exitLemmas(post, out, con)
+			for _, c := range con.Ensures {
+				if len(con.UseLemmas) > 0 && strings.HasPrefix(c.Label, "delta") {
+					continue
+				}
+				e.obligeClause(post, out, "ensures", c, fn.Pos())
+			}
 		}
 		if con.HasMod {
 			e.frameCheck(pre, entry, out, con, fn)
@@ -1035,6 +1097,25 @@ func (e *Enc) frameCheck(pre *SpecEnv, entry, out *State, con *Contract, fn *ssa
 
 // writeQuery renders the SMT-LIB text for one obligation.
 func (v *Verifier) writeQuery(u *Unit, o *Obligation, dir string, logic string, light bool) (string, error) {
+	return v.writeQueryMode(u, o, dir, logic, map[bool]string{true: "light", false: "full"}[light])
+}
+
+func (v *Verifier) writeQueryMode(u *Unit, o *Obligation, dir string, logic string, mode string) (string, error) {
+	light := mode == "light"
+	var keep map[int]bool
+	if mode == "focused" {
+		funs := map[string]bool{}
+		for name := range v.funDecls {
+			if strings.HasPrefix(name, "fa_") || strings.HasPrefix(name, "inv_fa_") || name == "broot" {
+				continue
+			}
+			funs[name] = true
+		}
+		for name := range v.opaqueDefs {
+			funs["op_"+name] = true
+		}
+		keep = u.Q.focusKeep(o, funs)
+	}
 	var b strings.Builder
 	b.WriteString("(set-option :produce-models true)\n")
 	if logic != "" {
@@ -1042,7 +1123,7 @@ func (v *Verifier) writeQuery(u *Unit, o *Obligation, dir string, logic string, 
 	}
 	b.WriteString(v.prelude())
 	for i, d := range u.Q.decls[:o.NDecls] {
-		if light {
+		if light || (mode == "focused" && !keep[i]) {
 			if name, ok := u.Q.quantDefs[i]; ok {
 				b.WriteString("(assert " + name + ")\n")
 				continue
@@ -1068,6 +1149,9 @@ func (v *Verifier) writeQuery(u *Unit, o *Obligation, dir string, logic string, 
 	suffix := ".smt2"
 	if light {
 		suffix = ".light.smt2"
+	}
+	if mode == "focused" {
+		suffix = ".focus.smt2"
 	}
 	path := filepath.Join(dir, sanitize(o.Name)+suffix)
 	return path, os.WriteFile(path, []byte(b.String()), 0o644)
@@ -1117,4 +1201,23 @@ func (v *Verifier) globalInitNonNil(g *ssa.Global) bool {
 	}
 	res = n == 1
 	return res
+}
+
+// exitLemmas: ensures clauses listed before a lemma application are checked
+// first; the lemma instance is assumed for the remaining ones. To keep it
+// simple the instances are assumed after the clauses labelled "delta-*".
+func (e *Enc) exitLemmas(env *SpecEnv, st *State, con *Contract) {
+	if len(con.UseLemmas) == 0 {
+		return
+	}
+	// prove the delta clauses first
+	for _, c := range con.Ensures {
+		if strings.HasPrefix(c.Label, "delta") {
+			e.obligeClause(env, st, "ensures", c, 0)
+		}
+	}
+	for _, l := range con.UseLemmas {
+		t, _ := e.lemmaInstance(env, l)
+		st.assume(t)
+	}
 }
